@@ -287,6 +287,14 @@ class Sampler:
         jax.random.choice = self.real  # type: ignore
         _verif.set_sink(None)
 
+    def _note(self, rec: Dict[str, Any]) -> None:
+        try:
+            from . import tracer
+
+            tracer.note_draw(rec["key"])
+        except Exception:
+            pass
+
     def _announce(self, kind: str, subjects: tuple) -> None:
         self.pending = (kind, subjects)
 
@@ -306,9 +314,11 @@ class Sampler:
                 res = self.real(key, a, shape=shape, replace=replace, p=p, axis=axis)
                 rec["outcome"] = int(res)
                 self.draws.append(rec)
+                self._note(rec)
                 return res
         rec["outcome"] = int(out)
         self.draws.append(rec)
+        self._note(rec)
         arr = np.asarray(a)
         if arr.ndim == 0:
             return jnp.array(int(out))
